@@ -24,7 +24,8 @@ MANIFEST = {
     "text": "icontract post-conditions on the real deep_update (result equals a 15-line reference merge incl. DefaultValue rules; source "
             "unchanged) evaluated on every (recursive) call made by random merge histories, by LanguageContextBuilder.create() with 0-3 "
             "YAML files + overrides, and by the real CLI (--list-configuration read back); histories of 2-6 builders/contexts in one "
-            "process re-read every earlier context after each creation. Sampled, not exhaustive.",
+            "process re-read every earlier context after each creation. Sampled, not exhaustive."
+            " Configuration file lists include repeated files (A B A).",
     "note": "Trusts the reference merge and the documented language post-rules (Python forces asserts; C++ std shorthand applies its group as a unit).",
 }
 
